@@ -72,5 +72,6 @@ func Props(c *Ctx) map[string]*Prop {
 				func(c *Ctx) (map[*core.Func]bool, map[*core.Func]bool) { return c.downstreamScope(), nil }),
 			rulePF2(), rulePF3("printer", "interp", "ast", "pattern"), rulePF4("interp"), rulePF5(), ruleYY1("interp"), ruleEF7(), ruleFLD1(), ruleFLD2(), ruleCC1("interp"),
 		}})
+	add(&Prop{ID: "DEVG", Explanation: "dev", Rules: []Rule{ruleGR1("parser", "interp"), ruleGR2("parser", "interp"), ruleGR3(), ruleGR4(), ruleGR5(), ruleGR6()}})
 	return m
 }
